@@ -51,6 +51,7 @@ WhyNot(e) ==
   ELSE IF pc # "nmea" /\ e.n # Need THEN <<"WrongRequestSize", <<pc, Need, e.n>> >>
   ELSE IF pc # "nmea" /\ Len(e.data) > Need THEN <<"StreamAnsweredTooMuch", <<Need, Len(e.data)>> >>
   ELSE IF e.then \in {"handler", "raise"} /\ ~e.lib THEN <<"ForeignException", <<pc, e.cls>> >>
+  ELSE IF e.then = "ret" /\ (parsed # (e.pk # "none")) THEN <<"ParsedObjectMismatch", <<parsed, e.pk>> >>
   ELSE <<"WrongFollowUp", <<pc, e.then, e.cls, Len(e.raw)>> >>
 
 Consume ==
@@ -66,6 +67,7 @@ Consume ==
              /\ e.op = (IF pc = "nmea" THEN "readline" ELSE "read")
              /\ (pc # "nmea" => e.n = Need /\ Len(e.data) <= Need)
              /\ (e.then \in {"handler", "raise"} => e.lib)
+             /\ (e.then = "ret" => (parsed <=> e.pk # "none"))      \* an object iff parsing is on
      THEN /\ Step(e.data, OutcomeOfEv(e))
           /\ (pc = "crc" /\ Len(e.data) = 3 => PrintT(<<"FRAME", Tr.tid, k, cur \o e.data, e.then>>))
           /\ IF Follows(obs', e) THEN bad' = << >> ELSE bad' = <<"WrongFollowUp", <<pc, e.then, e.cls, obs'.ev, obs'.cls>> >>
